@@ -12,6 +12,7 @@ CONSTANTS
   CkOks = {}
   Rfus = {}
   MsgKinds = {}
+  Cards = {}
   WithCut = TRUE
   WithFormat = TRUE
 CONSTRAINT Done
